@@ -26,7 +26,7 @@ R = (None, None)
 class Subject:
     def __init__(self, name, axes, build, shape, ctx=None, domain=None, codomain=None, specials=None, out_specials=None,
                  patterns=("init", "zero", "pat1", "pat3"), inv_tol=0.0, ld_tol=0.0, has_inverse=True, kind="other",
-                 knots=None, exact=False, post=None, fwd_tol=0.0, smooth=True, margin=0.0, out_margin=0.0):
+                 knots=None, exact=False, post=None, fwd_tol=0.0, smooth=True, margin=0.0, out_margin=0.0, out_shape=None):
         self.name = name
         self.axes = axes  # dict axis -> list of values, first = default
         self._build = build
@@ -48,6 +48,7 @@ class Subject:
         self.smooth = smooth
         self.margin = margin  # declared clamp / pole region next to the end-points of an open domain (excluded from numeric oracles)
         self.out_margin = out_margin
+        self._out_shape = out_shape
 
     def default(self):
         return {a: v[0] for a, v in self.axes.items()}
@@ -63,6 +64,11 @@ class Subject:
 
     def shape(self, cfg):
         return tuple(self._shape(cfg) if callable(self._shape) else self._shape)
+
+    def out_shape(self, cfg):
+        if self._out_shape is None:
+            return self.shape(cfg)
+        return tuple(self._out_shape(cfg))
 
     def ctx_shape(self, cfg):
         if self._ctx is None:
@@ -134,6 +140,10 @@ def materialise(subject, cfg, pname, seed, dtype=torch.float64, train=False):
         torch.manual_seed(1000 + seed)
         m = subject.build(cfg)
     pat = pattern_for(pname, seed)
+    if pat[0] == "pat" and subject.kind in ("coupling-spline", "ar-spline", "coupling", "ar") and cfg.get("tb") and float(cfg["tb"]) > 2.5:
+        # keep the conditioner's outputs moderate when its inputs reach the (large) tail bound: with O(1) weights
+        # and inputs of 30-40 the softmax logits differ by hundreds and bin masses underflow to exactly 0
+        pat = (pat[0], pat[1], pat[2] * 2.5 / float(cfg["tb"]))
     fill(m, pat)
     subject.post(m, cfg, pat)
     if dtype == torch.float64:
@@ -341,7 +351,8 @@ reg(Subject("Permutation", {"kind": ["0", "1", "2", "3", "4", "5", "reverse", "r
             patterns=("init",), kind="perm", exact=True))
 
 reg(Subject("SqueezeTransform", {"factor": [2, 3], "c": [1, 2], "mult": [1, 2]}, lambda c: T.SqueezeTransform(c["factor"]),
-            lambda c: (c["c"], c["factor"] * c["mult"], c["factor"]), patterns=("init",), kind="perm", exact=True))
+            lambda c: (c["c"], c["factor"] * c["mult"], c["factor"]), patterns=("init",), kind="perm", exact=True,
+            out_shape=lambda c: (c["c"] * c["factor"] ** 2, c["mult"], 1)))
 
 
 def _lin(cls):
@@ -399,8 +410,10 @@ reg(Subject("LogTanh", {"cut": [1, 0.5, 2.0], "shape": EW_SHAPES}, lambda c: T.L
 reg(Subject("LeakyReLU", {"slope": [0.01, 0.3, 2.0], "shape": EW_SHAPES}, lambda c: T.LeakyReLU(negative_slope=c["slope"]), _shape_ew, patterns=("init",), kind="elementwise",
             specials=[0.0], out_specials=[0.0], smooth=False))
 reg(Subject("Sigmoid", {"temperature": [1, 2.5, 0.2], "learn": [False, True], "shape": EW_SHAPES}, lambda c: T.Sigmoid(temperature=c["temperature"], learn_temperature=c["learn"]),
-            _shape_ew, patterns=("init",), codomain=(0.0, 1.0), kind="elementwise", out_margin=1e-3))
-reg(Subject("Logit", {"temperature": [1, 2.5], "shape": EW_SHAPES}, lambda c: T.Logit(temperature=c["temperature"]), _shape_ew, patterns=("init",), domain=(0.0, 1.0), kind="elementwise", margin=1e-2))
+            _shape_ew, patterns=("init",), codomain=(0.0, 1.0), kind="elementwise", out_margin=1e-3,
+            domain=lambda c: (-12.0 / c["temperature"], 12.0 / c["temperature"])))  # beyond: declared clamp eps=1e-6 of the inverse
+reg(Subject("Logit", {"temperature": [1, 2.5], "shape": EW_SHAPES}, lambda c: T.Logit(temperature=c["temperature"]), _shape_ew, patterns=("init",), domain=(0.0, 1.0), kind="elementwise", margin=1e-3,
+            codomain=lambda c: (-12.0 / c["temperature"], 12.0 / c["temperature"])))
 reg(Subject("CauchyCDF", {"shape": EW_SHAPES}, lambda c: T.nonlinearities.CauchyCDF(), _shape_ew, patterns=("init",), codomain=(0.0, 1.0), kind="elementwise", out_margin=1e-3))
 reg(Subject("CauchyCDFInverse", {"shape": EW_SHAPES}, lambda c: T.nonlinearities.CauchyCDFInverse(), _shape_ew, patterns=("init",), domain=(0.0, 1.0), kind="elementwise", margin=1e-2))
 reg(Subject("GatedLinearUnit", {"features": [1, 2, 3]}, lambda c: T.GatedLinearUnit(), lambda c: (c["features"],), ctx=lambda c: (1,), patterns=("init",), kind="elementwise"))
@@ -463,7 +476,8 @@ for fam in ("linear", "quadratic", "cubic", "rq"):
                 knots=spline_knots("p0", uniform=(fam == "linear")), smooth=(fam != "linear")))
 
 reg(Subject("CompositeCDFTransform", {"bins": [3, 1, 5], "temperature": [1, 2.5]},
-            lambda c: T.CompositeCDFTransform(T.Sigmoid(temperature=c["temperature"]), T.PiecewiseRationalQuadraticCDF(shape=[2], num_bins=c["bins"])), (2,), kind="spline"))
+            lambda c: T.CompositeCDFTransform(T.Sigmoid(temperature=c["temperature"]), T.PiecewiseRationalQuadraticCDF(shape=[2], num_bins=c["bins"])), (2,), kind="spline",
+            domain=lambda c: (-12.0 / c["temperature"], 12.0 / c["temperature"]), codomain=lambda c: (-12.0 / c["temperature"], 12.0 / c["temperature"])))
 
 # --- couplings
 MASKS = {2: [[1, 0], [0, 1]], 3: [[1, 0, 1], [0, 1, 0], [0, 0, 1], [1, 1, 0]]}
@@ -617,7 +631,7 @@ def _multiscale(c):
 
 
 reg(Subject("MultiscaleCompositeTransform", {"shape": [[4], [5], [2, 2, 2], [3, 2, 1]], "split_dim": [1, 2], "stages": [2, 1, 3]}, _multiscale, lambda c: tuple(c["shape"]), kind="wrapper",
-            patterns=("init", "pat1"), specials=[0.0], smooth=False))
+            patterns=("init", "pat1"), specials=[0.0], smooth=False, out_shape=lambda c: (int(np.prod(c["shape"])),)))
 
 
 def valid(subject, cfg):
